@@ -40,12 +40,12 @@ AtomsImm == AtomsOrder \cup
             {Bin("SubAssign", WX, C1), Bin("MulAssign", WX, C2), Bin("DivAssign", WX, C0), Bin("ModAssign", WX, C2),
              Bin("ExpAssign", WX, C2), Bin("AndAssign", WX, CT), Bin("OrAssign", WX, CF), Bin("Assign", WX, CT),
              CallN(<<109, 97, 120>>, NOp("Tuple", <<RX, C2>>))}                       \* max(x, 2): a builtin
-AtomsEntry == {C1, CS, CT, NEmpty, NOp("Tuple", <<C1, CS>>), NConst(VFloat(<<16376, 0, 0, 0>>), <<49, 46, 53>>), RX,
+AtomsEntry == {C1, CS, CT, CF, NEmpty, NOp("Tuple", <<C1, CS>>), NConst(VFloat(<<16376, 0, 0, 0>>), <<49, 46, 53>>), RX,
                Bin("Assign", WX, C2), Bin("Div", C1, C0), NLeaf("Read", NU), CallN(NFf, C2), CallN(NH, C1)}
 \* "deep": fewer atoms and combinators, one more level (programs of four atoms)
 AtomsDeep == {Bin("Assign", WX, C1), Bin("AddAssign", WX, C1), RX, CallN(NFf, C2), CallN(NH, C1)}
 Atoms == CASE Family = "order" -> AtomsOrder [] Family = "imm" -> AtomsImm [] Family = "deep" -> AtomsDeep [] OTHER -> AtomsEntry
-Combs == CASE Family = "entry" -> {"Add", "Chain", "Tuple", "Eq"} [] Family = "deep" -> {"Add", "And", "Tuple", "Chain"}
+Combs == CASE Family = "entry" -> {"Add", "Chain", "Tuple", "Eq", "And", "Or"} [] Family = "deep" -> {"Add", "And", "Tuple", "Chain"}
            [] OTHER -> {"Add", "Mul", "And", "Or", "Eq", "Tuple", "Chain"}
 Wraps == IF Family = "entry" THEN {} ELSE {NFf, NH}
 AssignWraps == CASE Family = "imm" -> AssignNodes [] Family \in {"order", "deep"} -> {"Assign", "AddAssign", "OrAssign"} [] OTHER -> {"Assign"}
